@@ -908,8 +908,8 @@ def _cyc_ast():
     def ge_inline(*ges):
         return ("enum", "GroupEntry::InlineGroup", {"occur": ("None",), "group": group(gchoice(*ges)), "span": OPAQUE})
 
-    def grule(name, entry):
-        return ("enum", "Rule::Group", {"rule": ("enum", "GroupRule", {"name": ident(name), "generic_params": ("None",), "is_group_choice_alternate": False, "entry": entry}),
+    def grule(name, entry, alt=False):
+        return ("enum", "Rule::Group", {"rule": ("enum", "GroupRule", {"name": ident(name), "generic_params": ("None",), "is_group_choice_alternate": alt, "entry": entry}),
                                         "span": OPAQUE})
 
     def cddl(*rules):
@@ -952,6 +952,11 @@ def r_cyclic(ctx):
     group_schemas = {
         "g = (x: 1, h), h = (y: 2, g)": cddl(grule("g", ge_inline(ge_member("x", t2uint(1)), ge_name("h"))), grule("h", ge_inline(ge_member("y", t2uint(2)), ge_name("g")))),
         "g = (g)": cddl(grule("g", ge_inline(ge_name("g")))),
+        # groups that exist only as `//=` alternatives, or whose cycle closes through an alternative (no base rule to find)
+        "g //= (x: 1, g)": cddl(grule("g", ge_inline(ge_member("x", t2uint(1)), ge_name("g")), True)),
+        "g //= (x: 1, h), h //= (y: 2, g)": cddl(grule("g", ge_inline(ge_member("x", t2uint(1)), ge_name("h")), True),
+                                                 grule("h", ge_inline(ge_member("y", t2uint(2)), ge_name("g")), True)),
+        "g = (x: 1), g //= (y: 2, g)": cddl(grule("g", ge_inline(ge_member("x", t2uint(1)))), grule("g", ge_inline(ge_member("y", t2uint(2)), ge_name("g")), True)),
         "g = (x: 1, h), h = (y: 2) (acyclic)": cddl(grule("g", ge_inline(ge_member("x", t2uint(1)), ge_name("h"))), grule("h", ge_inline(ge_member("y", t2uint(2))))),
     }
     # entry points: name -> (argument builder, schemas)
